@@ -46,24 +46,27 @@ type c15rScenario struct {
 	RenewMs   int        `json:"lease_renew_interval_ms"`
 	HorizonS  int        `json:"horizon_s"`
 	PhaseMs   int        `json:"phase_ms"`
+	StopMs    int        `json:"syncer_stop_ms"`  // how long the (stubbed) leader syncer needs to stop: the stop-then-resign path takes that long
 	Fault     *c15tFault `json:"fault,omitempty"` // kinds: error-reply (run of calls), cut / reply-lost (one call, the connection dies; the instance restarts and reconnects)
 }
 
 type c15rInst struct {
-	id     string
-	sc     *SyncerCmd
-	active bool  // its stub RunLeader is running (until it has wound down)
-	lastOK int64 // ms of the last delivered ":1" of the campaign script
-	calls  int
+	id       string
+	sc       *SyncerCmd
+	active   bool  // its stub RunLeader is running (until it has wound down)
+	stopping bool  // Stop was called on it: the instance has given up leadership and is winding the syncer down
+	lastOK   int64 // ms of the last delivered ":1" of the campaign script
+	calls    int
 }
 
 type c15rHarness struct {
-	mu     sync.Mutex
-	inst   []*c15rInst
-	start  time.Time
-	trace  []string
-	onCh   func(where string) // invariant check, called with mu held
-	ending bool
+	stopFor time.Duration
+	mu      sync.Mutex
+	inst    []*c15rInst
+	start   time.Time
+	trace   []string
+	onCh    func(where string) // invariant check, called with mu held
+	ending  bool
 }
 
 func (h *c15rHarness) ms() int64 { return time.Since(h.start).Milliseconds() }
@@ -102,10 +105,17 @@ func (s *c15rStub) RunLeader() error {
 	h.onCh("leader syncer started")
 	h.mu.Unlock()
 	<-s.stop
-	time.Sleep(500 * time.Millisecond) // the data path takes a moment to wind down
 	h.mu.Lock()
 	if i >= 0 {
-		h.inst[i].active = false
+		h.inst[i].stopping = true
+	}
+	h.mu.Unlock()
+	if h.stopFor > 0 {
+		time.Sleep(h.stopFor) // the data path takes its time to wind down
+	}
+	h.mu.Lock()
+	if i >= 0 {
+		h.inst[i].active, h.inst[i].stopping = false, false
 		h.trace = append(h.trace, fmt.Sprintf("t=%dms i%d leader syncer has stopped", h.ms(), i+1))
 	}
 	h.mu.Unlock()
@@ -139,7 +149,9 @@ func c15rExec(t *testing.T, scn c15rScenario) (mc.Result, [2]int) {
 	msg := bubble(t, func() {
 		vnet.Reset()
 		srv := redisd.New(c15rSource)
+		c15StrictStore(srv)
 		h.start = time.Now()
+		h.stopFor = time.Duration(scn.StopMs) * time.Millisecond
 		// ---- process configuration, as the YAML loader + fix() would leave it
 		cc := &config.ClusterConfig{GroupName: c15rGroup, LeaseTimeout: time.Duration(scn.TimeoutMs) * time.Millisecond, LeaseRenewInterval: time.Duration(scn.RenewMs) * time.Millisecond}
 		if err := config.VerifClusterFix(cc); err != nil {
@@ -194,14 +206,18 @@ func c15rExec(t *testing.T, scn c15rScenario) (mc.Result, [2]int) {
 				if !in.active {
 					continue
 				}
-				n++
-				if in.lastOK < 0 || now >= in.lastOK+ttlMs {
+				within := in.lastOK >= 0 && now < in.lastOK+ttlMs // its lease period is still running
+				if within {
+					n++
+				}
+				// a syncer that is being stopped is no longer acting on leadership; how long the stop takes is not the lease's business
+				if !within && !in.stopping {
 					viol("an instance keeps its leader syncer running although its lease period has run out", "C15:run:leader-past-lease",
 						map[string]interface{}{"instance": i + 1, "now_ms": now, "last_success_ms": in.lastOK, "at": where})
 				}
 			}
 			if n > 1 {
-				viol("two instances run a leader syncer for the same source at the same time", "C15:run:two-active-leaders", map[string]interface{}{"now_ms": now, "at": where})
+				viol("two instances run a leader syncer for the same source while both lease periods are running", "C15:run:two-active-leaders", map[string]interface{}{"now_ms": now, "at": where})
 			}
 		}
 		storeCheck := func(where string) { // harness goroutine only (takes the server lock)
@@ -228,8 +244,8 @@ func c15rExec(t *testing.T, scn c15rScenario) (mc.Result, [2]int) {
 				holder = string(v.Str)
 			}
 			for i, in := range h.inst {
-				if in.active && holder != in.id {
-					viol("an instance runs its leader syncer while the store's lease is not (any more) held under its own id: it resigned or lost the lease before the syncer had stopped, or contends under another id",
+				if in.active && in.lastOK >= 0 && h.ms() < in.lastOK+ttlMs && holder != in.id {
+					viol("an instance runs its leader syncer, its lease period has not run out, but the store's lease is not held under its own id: it resigned before the syncer had stopped, somebody removed / took its lease, or it contends under another id",
 						"C15:run:leader-without-lease", map[string]interface{}{"instance": i + 1, "its_id": in.id, "lease_holder": holder, "now_ms": h.ms(), "at": where})
 				}
 			}
@@ -396,20 +412,24 @@ func c15rExec(t *testing.T, scn c15rScenario) (mc.Result, [2]int) {
 type c15rConfig struct {
 	timeoutMs, renewMs, horizonS int
 	phases                       []int
+	stops                        []int // how long the stubbed leader syncer needs to stop (ms)
 }
 
+// Stop durations: 0 / 500 ms, "the resign lands 100 ms before the holder's own lease runs out" (lease period - interval - 100 ms
+// after the failing renewal tick) and "300 ms after it" (the other instance's campaign tick, phase 250 ms, lies in between).
+// All are multiples of 100 ms, the other instance moves on odd multiples of 50 ms, the monitor on odd multiples of 25 ms.
 func c15rConfigs(tier string) []c15rConfig {
 	if tier == "thorough" {
 		return []c15rConfig{
-			{3000, 1000, 14, []int{250, 750}},
-			{3500, 1000, 14, []int{250, 750}}, // sub-second part: the store gets 3 s
-			{5000, 1500, 20, []int{250, 750, 1250}},
-			{10000, 3000, 36, []int{250, 1250, 2250}},
+			{3000, 1000, 16, []int{250, 750}, []int{0, 500, 1900, 2300}},
+			{3500, 1000, 16, []int{250, 750}, []int{0, 500, 1900, 2300}}, // sub-second part: the store gets 3 s
+			{5000, 1500, 22, []int{250, 750, 1250}, []int{500, 3400, 3800}},
+			{10000, 3000, 38, []int{250, 1250, 2250}, []int{500, 6900, 7300}},
 		}
 	}
 	return []c15rConfig{
-		{3000, 1000, 12, []int{250}},
-		{3500, 1000, 12, []int{750}},
+		{3000, 1000, 12, []int{250}, []int{500, 1900, 2300}},
+		{3500, 1000, 12, []int{750}, []int{0, 1900}},
 	}
 }
 
@@ -437,8 +457,9 @@ func runC15Run(t *testing.T, rep *mc.Reporter, budget *mc.Budget) {
 	idx := 0
 	sigSeen := map[string]int{}
 	for _, cf := range c15rConfigs(tier) {
-		for _, ph := range cf.phases {
-			base := c15rScenario{Kind: "run", TimeoutMs: cf.timeoutMs, RenewMs: cf.renewMs, HorizonS: cf.horizonS, PhaseMs: ph}
+		for pi := 0; pi < len(cf.phases)*len(cf.stops); pi++ {
+			ph, st := cf.phases[pi%len(cf.phases)], cf.stops[pi/len(cf.phases)]
+			base := c15rScenario{Kind: "run", TimeoutMs: cf.timeoutMs, RenewMs: cf.renewMs, HorizonS: cf.horizonS, PhaseMs: ph, StopMs: st}
 			r0, calls := c15rExec(t, base)
 			if r0.Verdict == "machinery" {
 				rep.Exec(base, nil, r0)
